@@ -2,12 +2,46 @@ use crate::report::{Cfg, Meta, Report};
 use serde_json::Value;
 
 pub mod c01;
+pub mod c02;
 pub mod c03;
+pub mod c04;
+pub mod c05;
+pub mod c06;
+pub mod c07;
+pub mod c08;
+pub mod c09;
+pub mod c10;
+pub mod c11;
+pub mod c12;
+pub mod c13;
+pub mod c14;
+pub mod c15;
+pub mod c16;
+pub mod c17;
+pub mod c18;
+pub mod c19;
 
 pub fn dispatch(cfg: &Cfg) -> Option<(Meta, Report)> {
     Some(match cfg.id.as_str() {
         "C01" => (c01::meta(), c01::run(cfg)),
+        "C02" => (c02::meta(), c02::run(cfg)),
         "C03" => (c03::meta(), c03::run(cfg)),
+        "C04" => (c04::meta(), c04::run(cfg)),
+        "C05" => (c05::meta(), c05::run(cfg)),
+        "C06" => (c06::meta(), c06::run(cfg)),
+        "C07" => (c07::meta(), c07::run(cfg)),
+        "C08" => (c08::meta(), c08::run(cfg)),
+        "C09" => (c09::meta(), c09::run(cfg)),
+        "C10" => (c10::meta(), c10::run(cfg)),
+        "C11" => (c11::meta(), c11::run(cfg)),
+        "C12" => (c12::meta(), c12::run(cfg)),
+        "C13" => (c13::meta(), c13::run(cfg)),
+        "C14" => (c14::meta(), c14::run(cfg)),
+        "C15" => (c15::meta(), c15::run(cfg)),
+        "C16" => (c16::meta(), c16::run(cfg)),
+        "C17" => (c17::meta(), c17::run(cfg)),
+        "C18" => (c18::meta(), c18::run(cfg)),
+        "C19" => (c19::meta(), c19::run(cfg)),
         _ => return None,
     })
 }
@@ -15,7 +49,24 @@ pub fn dispatch(cfg: &Cfg) -> Option<(Meta, Report)> {
 pub fn replay(id: &str, v: &Value, rep: &mut Report) -> bool {
     match id {
         "C01" => c01::replay(v, rep),
+        "C02" => c02::replay(v, rep),
         "C03" => c03::replay(v, rep),
+        "C04" => c04::replay(v, rep),
+        "C05" => c05::replay(v, rep),
+        "C06" => c06::replay(v, rep),
+        "C07" => c07::replay(v, rep),
+        "C08" => c08::replay(v, rep),
+        "C09" => c09::replay(v, rep),
+        "C10" => c10::replay(v, rep),
+        "C11" => c11::replay(v, rep),
+        "C12" => c12::replay(v, rep),
+        "C13" => c13::replay(v, rep),
+        "C14" => c14::replay(v, rep),
+        "C15" => c15::replay(v, rep),
+        "C16" => c16::replay(v, rep),
+        "C17" => c17::replay(v, rep),
+        "C18" => c18::replay(v, rep),
+        "C19" => c19::replay(v, rep),
         _ => return false,
     }
     true
